@@ -27,6 +27,13 @@
 (* the same or a later LINE NUMBER than the colliding import statement -   *)
 (* line numbers of different files must never be related to each other.    *)
 (*                                                                         *)
+(* Multi-line statements (the ml_.. kinds): the planted form spans several *)
+(* lines and the offending ELEMENT (an argument, a list / tuple / blob     *)
+(* element, a name of a `from .. use ( .. )` list, an operand expression,  *)
+(* a statement of a block lambda) is written on a LATER line than the      *)
+(* form's first line.  The marker is the element's offset, so the expected *)
+(* line is the element's line, not the line where the statement begins.    *)
+(*                                                                         *)
 (* Preceding text shapes: string literals whose content spans lines in     *)
 (* every way (ends with / begins with / consists only of newlines, holds a *)
 (* blank line, holds CRLF, ends with CRLF), in every place a string can    *)
@@ -44,7 +51,11 @@ diagvars == <<text, pos, toks, ln>>
 Kinds  == <<"syn_rparen", "syn_char", "unresolved", "dup_global", "const_local", "const_global",
             "const_param", "op_mismatch", "arg_mismatch", "annot_mismatch", "break_outside", "conflict",
             "dup_import", "dup_from_import",
-            "dup_use_use", "dup_from_from", "dup_from_use", "dup_use_from">>
+            "dup_use_use", "dup_from_from", "dup_from_use", "dup_use_from",
+            "ml_arg_paren", "ml_arg_prime", "ml_arg_nested",
+            "ml_unres_arg", "ml_unres_list", "ml_unres_tuple", "ml_unres_blob",
+            "ml_from_2nd", "ml_from_3rd", "ml_from_last",
+            "ml_op_paren", "ml_op_cond", "ml_const_lambda">>
 Files  == <<"main", "sibling", "sub">>
 Poss   == <<"top_first", "top_mid", "top_last", "fn_body", "if_branch">>
 BaseShapes == <<"none", "ascii_comment", "nonascii_comment", "nonascii_string", "ml_string2", "ml_string3",
@@ -108,7 +119,11 @@ DupKinds == {"dup_global", "dup_import", "dup_from_import", "dup_use_use", "dup_
 \* duplicates one of whose introductions is a `from .. use` of a name defined in another module: only for these does
 \* the layout of that module (rel) mean anything; all other kinds keep the plain layout (definition on line 1)
 FromKinds == {"dup_from_import", "dup_from_from", "dup_from_use", "dup_use_from"}
-Applicable(c) == /\ CASE c.kind \in DupKinds -> c.pos \in TopPos
+\* the planted form spans lines, its offending element stands on a later line than its first line
+MLKinds == {"ml_arg_paren", "ml_arg_prime", "ml_arg_nested", "ml_unres_arg", "ml_unres_list", "ml_unres_tuple",
+            "ml_unres_blob", "ml_from_2nd", "ml_from_3rd", "ml_from_last", "ml_op_paren", "ml_op_cond", "ml_const_lambda"}
+MLFromKinds == {"ml_from_2nd", "ml_from_3rd", "ml_from_last"}      \* imports: top level only
+Applicable(c) == /\ CASE c.kind \in DupKinds \cup MLFromKinds -> c.pos \in TopPos
                       [] c.kind = "const_local" -> c.pos \in InFnPos
                       [] OTHER -> TRUE
                  /\ c.rel # "def_earlier" => c.kind \in FromKinds
@@ -138,6 +153,47 @@ Construct(kind, top) ==
       [] kind = "dup_from_from"  -> "from /twin use lv as lw"      \* collides with `from /leaf use lv as lw`
       [] kind = "dup_from_use"   -> "from /twin use lv as leaf"    \* collides with `use /leaf`
       [] kind = "dup_use_from"   -> "use /twin as lw"              \* collides with `from /leaf use lv as lw`
+
+(* The planted form of every kind: its lines as <<relative indentation level, text>> and the offending element as
+   <<line of the form, characters before it on that line, spelling>>.  The older kinds are one line, the element is
+   the whole line.  An `if` cannot stand at the top level: there ml_op_cond is the body of a function. *)
+SL(kind, top) == <<<<0, Construct(kind, top)>>>>
+FormLines(kind, top) ==
+    CASE kind = "ml_arg_paren"   -> <<<<0, "pz :: helper(">>, <<1, "1,">>, <<1, "\"s\",">>, <<0, ")">>>>
+      [] kind = "ml_arg_prime"   -> <<<<0, "pz :: helper' 1,">>, <<1, "\"s\"">>>>
+      [] kind = "ml_arg_nested"  -> <<<<0, "pz :: helper(">>, <<1, "helper(">>, <<2, "1,">>, <<2, "\"s\",">>, <<1, "),">>,
+                                      <<1, "2,">>, <<0, ")">>>>
+      [] kind = "ml_unres_arg"   -> <<<<0, "pz :: helper(">>, <<1, "1,">>, <<1, "nope,">>, <<0, ")">>>>
+      [] kind = "ml_unres_list"  -> <<<<0, "pz :: [">>, <<1, "1,">>, <<1, "nope,">>, <<0, "]">>>>
+      [] kind = "ml_unres_tuple" -> <<<<0, "pz :: (">>, <<1, "1,">>, <<1, "nope,">>, <<0, ")">>>>
+      [] kind = "ml_unres_blob"  -> <<<<0, "pz :: Bl {">>, <<1, "x: 1,">>, <<1, "y: nope,">>, <<0, "}">>>>
+      [] kind = "ml_from_2nd"    -> <<<<0, "from /leaf use (">>, <<1, "lu as m1,">>, <<1, "nope as m2,">>, <<1, "lt as m3,">>,
+                                      <<0, ")">>>>
+      [] kind = "ml_from_3rd"    -> <<<<0, "from /leaf use (">>, <<1, "lu as m1,">>, <<1, "lt as m2,">>, <<1, "nope as m3,">>,
+                                      <<1, "lv as m4,">>, <<0, ")">>>>
+      [] kind = "ml_from_last"   -> <<<<0, "from /leaf use (">>, <<1, "lu as m1,">>, <<1, "lt as m2,">>, <<1, "lv as m3,">>,
+                                      <<1, "nope">>, <<0, ")">>>>
+      [] kind = "ml_op_paren"    -> <<<<0, "pz :: (">>, <<1, "2 * (">>, <<2, "1 + \"a\"">>, <<1, ")">>, <<0, ")">>>>
+      [] kind = "ml_op_cond"     -> IF top
+                                    THEN <<<<0, "pf :: fn do">>, <<1, "if (">>, <<2, "ga > 0 and">>, <<2, "1 < \"a\"">>,
+                                           <<1, ") do">>, <<2, "ga">>, <<1, "end">>, <<0, "end">>>>
+                                    ELSE <<<<0, "if (">>, <<1, "ga > 0 and">>, <<1, "1 < \"a\"">>, <<0, ") do">>, <<1, "ga">>,
+                                           <<0, "end">>>>
+      [] kind = "ml_const_lambda" -> <<<<0, "pz :: apply(fn do">>, <<1, "ga = 5">>, <<0, "end)">>>>
+      [] OTHER -> SL(kind, top)
+Elem(kind, top) ==
+    CASE kind \in {"ml_arg_paren"}  -> <<3, 0, "\"s\"">>
+      [] kind = "ml_arg_prime"      -> <<2, 0, "\"s\"">>
+      [] kind = "ml_arg_nested"     -> <<4, 0, "\"s\"">>
+      [] kind \in {"ml_unres_arg", "ml_unres_list", "ml_unres_tuple"} -> <<3, 0, "nope">>
+      [] kind = "ml_unres_blob"     -> <<3, 3, "nope">>
+      [] kind = "ml_from_2nd"       -> <<3, 0, "nope">>
+      [] kind = "ml_from_3rd"       -> <<4, 0, "nope">>
+      [] kind = "ml_from_last"      -> <<5, 0, "nope">>
+      [] kind = "ml_op_paren"       -> <<3, 0, "1 + \"a\"">>
+      [] kind = "ml_op_cond"        -> <<IF top THEN 4 ELSE 3, 0, "1 < \"a\"">>
+      [] kind = "ml_const_lambda"   -> <<2, 0, "ga = 5">>
+      [] OTHER -> <<1, 0, Construct(kind, top)>>
 
 (* The line(s) a preceding-text shape puts directly before the planted line ('@' stands for any
    non-ASCII character).  "crlf" and "tabs" are whole-file styles, "none" adds nothing. *)
@@ -171,19 +227,42 @@ ShapeText(shape, top, I) == LET ls == ShapeLines(shape, top) IN
 (* Text-derived expectation *)
 InText(t, p, s) == p >= 1 /\ p + Len(s) - 1 <= Len(t) /\ Sub(t, p, Len(s)) = s
 
-\* p is the first non-blank character of its line
-LineStartOK(t, p) == AllIn(t, LastNLBefore(t, p) + 1, p - 1, Blank)
+\* SyltLex!LastNLBefore, found by walking back from p instead of collecting every newline before p (the generator
+\* model checks the two agree at every position: PrevNLAgrees)
+RECURSIVE PrevNL(_, _)
+PrevNL(t, p) == IF p <= 1 THEN 0 ELSE IF Ch(t, p - 1) = NL THEN p - 1 ELSE PrevNL(t, p - 1)
 
-Indent(t, p) == SubSeq(t, LastNLBefore(t, p) + 1, p - 1)
+\* p is the first non-blank character of its line
+LineStartOK(t, p) == AllIn(t, PrevNL(t, p) + 1, p - 1, Blank)
+
+Indent(t, p) == SubSeq(t, PrevNL(t, p) + 1, p - 1)
 
 IsTop(c) == c.pos \in TopPos
 
-\* the marker really points at the planted construct, alone on its line
-MarkerOK(c, t, p) ==
-    LET C == Construct(c.kind, IsTop(c)) e == p + Len(C) IN
-    /\ InText(t, p, C)
-    /\ LineStartOK(t, p)
-    /\ e <= Len(t) /\ Ch(t, e) \in {NL, "\r"}
+\* The form as text: lines a..b, every line indented by I and its level times the unit U and ended by E; the
+\* indentation of line 1 is left out (the form start fs points behind it).
+Units == {"    ", "\t"}
+Ends == {NL, "\r\n"}
+Rep(U, n) == CASE n = 0 -> "" [] n = 1 -> U [] n = 2 -> U \o U [] n = 3 -> U \o U \o U
+RECURSIVE FormSeg(_, _, _, _, _, _)
+FormSeg(fl, a, b, I, U, E) ==
+    IF a > b THEN ""
+    ELSE (IF a = 1 THEN "" ELSE I \o Rep(U, fl[a][1])) \o fl[a][2] \o E \o FormSeg(fl, a + 1, b, I, U, E)
+\* characters from the form start to the offending element
+ElemOff(fl, el, I, U, E) ==
+    IF el[1] = 1 THEN el[2]
+    ELSE Len(FormSeg(fl, 1, el[1] - 1, I, U, E)) + Len(I) + fl[el[1]][1] * Len(U) + el[2]
+
+\* the form start fs is line-initial, the whole planted form stands there (its lines alone on their lines) and the
+\* marker p points at the offending element inside it
+MarkerOK(c, t, p, fs) ==
+    LET fl == FormLines(c.kind, IsTop(c)) el == Elem(c.kind, IsTop(c)) I == Indent(t, fs) IN
+    /\ fs >= 1 /\ fs <= p /\ LineStartOK(t, fs)
+    /\ \E U \in Units, E \in Ends :
+          /\ InText(t, fs, FormSeg(fl, 1, Len(fl), I, U, E))
+          /\ p = fs + ElemOff(fl, el, I, U, E)
+    /\ InText(t, p, el[3])
+    /\ (c.kind \in MLKinds) = (LineOf(t, p) > LineOf(t, fs))
 
 \* spellings that define the duplicated name (the planted one and the one already in the template)
 DefSpellings(kind) == CASE kind = "dup_global" -> {"ga :: "}
@@ -195,7 +274,9 @@ DefSpellings(kind) == CASE kind = "dup_global" -> {"ga :: "}
                         [] kind = "dup_use_from"  -> {"use /twin as lw", "from /leaf use lv as lw"}
                         [] OTHER               -> {}
 
-Sites(t, kind) == {q \in 1..Len(t) : /\ \E s \in DefSpellings(kind) : InText(t, q, s)
+Sites(t, kind) == LET sp == DefSpellings(kind) first == {Ch(s, 1) : s \in sp} IN
+                  {q \in 1..Len(t) : /\ Ch(t, q) \in first              \* (cheap conjunct first)
+                                     /\ \E s \in sp : InText(t, q, s)
                                      /\ LineStartOK(t, q)}
 
 OffendingPos(c, t, p) == IF DefSpellings(c.kind) = {} THEN p ELSE SetMax(Sites(t, c.kind) \cup {p})
@@ -214,6 +295,7 @@ Verdict(c, el, res, efile, eline) ==
       [] OTHER                   -> "conforms"
 
 \* the text before the marker has the shape the case names
+\* (p: the start of the planted form)
 ShapeOK(c, t, p) ==
     LET I == Indent(t, p) IN
     CASE c.shape \in LineShapes ->
@@ -242,15 +324,19 @@ RelOK(c, t, lt, tt) ==
 (* Generator model: walk the spec's own sample texts with a running counter and compare it with the
    text-derived line index in every state (the counter exists only here). *)
 Indents == {"", "    ", "\t\t"}
-Ends == {NL, "\r\n"}
 Sample(I, s, kd, top, e) == LET ls == ShapeLines(s, top) IN
     (IF Len(ls) = 1 THEN I \o ls[1] \o e ELSE I \o ls[1] \o e \o I \o ls[2] \o e)
         \o I \o Construct(kd, top) \o e \o "end" \o e
 SampleKinds == {"syn_rparen", "const_global", "dup_from_from"}     \* for the newer shapes (the construct matters little here)
-SampleTexts ==
-    {Sample(I, s, kd, top, e) : I \in Indents, s \in BaseLineShapes, kd \in Range(Kinds), top \in BOOLEAN, e \in Ends}
+SLSampleTexts ==
+    {Sample(I, s, kd, top, e) : I \in Indents, s \in BaseLineShapes, kd \in Range(Kinds) \ MLKinds, top \in BOOLEAN, e \in Ends}
     \cup {Sample(I, s, kd, top, e) : I \in Indents, s \in LineShapes \ BaseLineShapes, kd \in SampleKinds,
                                      top \in BOOLEAN, e \in Ends}
+\* the multi-line forms, in every indentation, unit and line end
+MLSampleTexts ==
+    {I \o FormSeg(FormLines(kd, top), 1, Len(FormLines(kd, top)), I, U, e) :
+        I \in Indents, U \in Units, kd \in MLKinds, top \in BOOLEAN, e \in Ends}
+SampleTexts == SLSampleTexts \cup MLSampleTexts
 
 DiagInit == /\ text \in SampleTexts
             /\ pos = 1 /\ toks = <<>> /\ ln = 1
@@ -263,6 +349,7 @@ DiagStep == /\ pos <= Len(text)
 DiagSpec == DiagInit /\ [][DiagStep]_diagvars
 
 LineAgrees == ln = LineOf(text, pos)
+PrevNLAgrees == PrevNL(text, pos) = LastNLBefore(text, pos)
 ColSane == /\ ColOf(text, pos) >= 1
            /\ (pos > 1 /\ Ch(text, pos - 1) = NL) => ColOf(text, pos) = 1
            /\ (pos > 1 /\ Ch(text, pos - 1) # NL) => LineOf(text, pos) = LineOf(text, pos - 1)
@@ -273,9 +360,9 @@ CountNL(t, n) == IF n = 0 THEN 0 ELSE CountNL(t, n - 1) + (IF Ch(t, n) = NL THEN
 \* the sample's planted construct sits where counting newlines says it does
 SampleMarker(t) == CHOOSE p \in 2..Len(t) :
                         /\ Ch(t, p) \notin Blank \cup {NL} /\ LineStartOK(t, p)      \* (cheap conjuncts first)
-                        /\ \E kd \in Range(Kinds), top \in BOOLEAN :
+                        /\ \E kd \in Range(Kinds) \ MLKinds, top \in BOOLEAN :
                               InText(t, p, Construct(kd, top) \o NL) \/ InText(t, p, Construct(kd, top) \o "\r\n")
-SampleLineOK == pos = 1 => LET p == SampleMarker(text) IN LineOf(text, p) = 1 + CountNL(text, p - 1)
+SampleLineOK == (pos = 1 /\ text \in SLSampleTexts) => LET p == SampleMarker(text) IN LineOf(text, p) = 1 + CountNL(text, p - 1)
 
 (* The universe is well formed: every dimension value occurs in an applicable case, cases are pairwise
    different, every construct is one line, multi-line shapes span exactly the lines they claim. *)
@@ -305,8 +392,20 @@ UniverseOK ==
     /\ \A s \in Range(Shapes), kd \in Range(Kinds) : \E c \in ApplicableCases : c.shape = s /\ c.kind = kd
     /\ Cardinality({Case(i) : i \in 1..NCases}) = NCases /\ Cardinality(ApplicableCases) = Cardinality(ApplicableIdx)
     /\ Cardinality(Range(Kinds)) = NK /\ Cardinality(Range(Shapes)) = NS
-    /\ \A kd \in Range(Kinds), top \in BOOLEAN : Len(Construct(kd, top)) > 0 /\ NLs(Construct(kd, top)) = 0
-    /\ Cardinality({Construct(kd, FALSE) : kd \in Range(Kinds)}) = NK
+    \* every form line is one line, the element is spelled where Elem says; the multi-line kinds - and only they - have
+    \* their element on a later line than the form's first line; forms are pairwise different
+    /\ \A kd \in Range(Kinds), top \in BOOLEAN :
+          LET fl == FormLines(kd, top) el == Elem(kd, top) IN
+          /\ Len(fl) >= 1 /\ fl[1][1] = 0 /\ el[1] \in 1..Len(fl) /\ Len(el[3]) > 0
+          /\ \A j \in 1..Len(fl) : Len(fl[j][2]) > 0 /\ NLs(fl[j][2]) = 0 /\ fl[j][1] \in 0..3
+          /\ InText(fl[el[1]][2], el[2] + 1, el[3])
+          /\ (kd \in MLKinds) = (el[1] > 1)
+          /\ kd \notin MLKinds => Len(fl) = 1 /\ el[2] = 0 /\ el[3] = fl[1][2]
+    /\ Cardinality({FormLines(kd, FALSE) : kd \in Range(Kinds)}) = NK
+    /\ MLKinds \subseteq Range(Kinds) /\ MLFromKinds \subseteq MLKinds /\ MLKinds \cap DupKinds = {}
+    \* elements at the 2nd, 3rd and a later, last line of a form; some followed by further elements, some not
+    /\ {2, 3, 4, 5} \subseteq {Elem(kd, FALSE)[1] : kd \in MLKinds}
+    /\ \E kd \in MLKinds : Elem(kd, FALSE)[2] > 0
     /\ NLs(ShapeLines("ml_string2", TRUE)[1]) = 1 /\ NLs(ShapeLines("ml_string3", TRUE)[1]) = 2
     /\ NLs(ShapeLines("blank_lines", TRUE)[1]) = 1
     /\ \A s \in BaseLineShapes \ {"ml_string2", "ml_string3", "blank_lines"} : NLs(ShapeLines(s, TRUE)[1]) = 0
@@ -314,7 +413,9 @@ UniverseOK ==
     /\ \A s \in LineShapes, top \in BOOLEAN : Len(ShapeLines(s, top)) \in {1, 2}
     \* every duplicate kind has two different spellings of the name's introductions, the planted one among them
     /\ \A kd \in DupKinds : /\ Cardinality(DefSpellings(kd)) \in {1, 2}
-                             /\ \E sp \in DefSpellings(kd) : InText(Construct(kd, TRUE), 1, sp)
+                             /\ (\E sp \in DefSpellings(kd) : InText(Construct(kd, TRUE), 1, sp))
+                             /\ (\A sq \in DefSpellings(kd), m \in MLKinds, top \in BOOLEAN :
+                                   \A j \in 1..Len(FormLines(m, top)) : ~InText(FormLines(m, top)[j][2], 1, sq))
     /\ \A kd \in Range(Kinds) \ DupKinds : DefSpellings(kd) = {}
     /\ FromKinds \subseteq DupKinds
     \* the cross-file dimension: every layout x every from-import duplicate x every file x every top-level position
